@@ -51,7 +51,7 @@ for e, tn in enumerate(["uchar", "int", "tri12", "constint"]):
                       flavours={"quick": ["asan-cc"], "thorough": ["asan-cc", "asan-nocc", "plain-cc"]}, shards={"quick": 1, "thorough": 2}))
 
 PROBES = {1: "stride_rank0", 2: "span_bytes", 3: "ctad_mdarray", 4: "stride_rss", 5: "stride_exh", 6: "stride_eq",
-          7: "stride_from", 8: "canon_from_stride", 9: "subext"}
+          7: "stride_from", 8: "canon_from_stride", 9: "subext", 10: "subext_pair", 11: "subext_cpair"}
 for n, pn in PROBES.items():
     units.append(Unit(f"C19_probe_{pn}", "harness/C19_probe.cpp", defs=[f"-DVF_PROBE={n}", "-DVF_IDX=int", '-DVF_IDX_NAME="int32"'],
                       flavours={"quick": ["asan-cc"], "thorough": ["asan-cc", "asan-nocc"]}, shards={"quick": 1, "thorough": 1}))
